@@ -20,40 +20,24 @@ def cval(F, module, node):
     return None if isinstance(v, Opaque) else v
 
 
-def cycles(g, head, body):
-    """All simple paths head -> ... -> head inside the loop body."""
-    out = []
-
-    def dfs(n, path):
-        for s, l in n.succ:
-            if s is head:
-                out.append(path + [(n, l)])
-            elif s in body and all(s is not p for p, _ in path) and s is not n:
-                dfs(s, path + [(n, l)])
-    dfs(head, [])
-    return out
-
-
-def is_raw_read(n, stream):
-    return (isinstance(n, ast.Call) and isinstance(n.func, ast.Attribute)
-            and n.func.attr in ('read', 'recv')
-            and isinstance(n.func.value, ast.Name)
-            and n.func.value.id == stream)
-
-
-def reads_in(astnode, stream):
-    return [x for x in ast.walk(astnode) if is_raw_read(x, stream)]
+from ..reassembly import Lin
+from ..pathsum import struct, show, is_const, subterms
 
 
 def run(report, db, tier):
     ref = json.load(open(os.path.join(VERIF, 'reference', 'wire_types.json')))
     report.explanation = (
-        'VarInt.read/send are analysed on their control-flow graphs: every '
-        'cycle of the read loop is reduced to an abstract counter machine '
-        '(read, increment, guard) whose worst case is computed; the send '
-        'loop is decided by a ranking-function argument that needs value >= '
-        '0 at loop entry (sign analysis); masks, shifts, continuation bit '
-        'and the size table must agree on 7 payload bits per byte.')
+        'VarInt.read/send are analysed on their loop summaries (vp.pathsum: '
+        'one symbolic iteration per loop, with the values the loop-carried '
+        'variables have at its end).  The read loop is reduced to an '
+        'abstract counter machine: every counter is a linear function of '
+        'the iteration number (inferred from its change per iteration), the '
+        'guard bounds the iteration number, and the worst case number of '
+        'reads is computed; the accumulated number is checked to be an OR / '
+        'sum of (byte & mask) << (7 * iteration).  The send loop is decided '
+        'by a ranking-function argument that needs value >= 0 at loop entry '
+        '(sign analysis); masks, shifts, continuation bit and the size '
+        'table must agree on 7 payload bits per byte.')
     F = Folder(db)
     basic = db.modules.get(BASIC)
     if basic is None:
@@ -68,9 +52,12 @@ def run(report, db, tier):
     if rd is None or sd is None or sz is None:
         raise AnalysisError('VarInt.read/send/size vanished')
     consts = {}
-    check_read(report, db, F, basic, vi, vl, rd, ref, consts)
-    check_send(report, db, F, basic, sd, consts)
-    check_constants(report, db, F, basic, rd, sd, sz, ref, consts)
+    from ..callgraph import CallGraph
+    from .. import shared
+    S = shared.summariser(db, CallGraph(db), implicit_raises=False)
+    check_read(report, db, S, vi, vl, rd, ref, consts)
+    check_send(report, db, S, sd, consts)
+    check_constants(report, db, F, S, basic, rd, sd, sz, ref, consts)
     # VarLong must not re-implement the codec
     R = report.rule('R03.6', 'VarLong only widens max_bytes')
     own = [k for k in vl.attrs if k != 'max_bytes']
@@ -84,496 +71,495 @@ def run(report, db, tier):
 
 
 # ---------------------------------------------------------------------------
-def check_read(report, db, F, basic, vi, vl, rd, ref, consts):
+def sy(n):
+    return ('sym', n)
+
+
+def loops_of(paths):
+    out = {}
+    for p in paths:
+        for e in p.events:
+            if e.kind == 'loop':
+                out.setdefault(id(e.node), e)
+    return list(out.values())
+
+
+def lin_in_n(t, inv):
+    """linear form of an integer term in which loop-carried variables are
+    replaced by their invariant (a function of the iteration number 'n')"""
+    if is_const(t) and isinstance(t[1], int) and not isinstance(t[1], bool):
+        return Lin(const=t[1])
+    if t[0] == 'phi':
+        return inv.get(t, Lin.sym(t))
+    if t[0] == 'elem' and t in inv:
+        return inv[t]
+    if t[0] == 'op' and t[1] in ('+', '-') and len(t[2]) == 2:
+        a, b = lin_in_n(t[2][0], inv), lin_in_n(t[2][1], inv)
+        return a + b if t[1] == '+' else a - b
+    if t[0] == 'op' and t[1] == '*' and len(t[2]) == 2:
+        a, b = lin_in_n(t[2][0], inv), lin_in_n(t[2][1], inv)
+        if not a.coef:
+            return b.scale(a.const)
+        if not b.coef:
+            return a.scale(b.const)
+    return Lin.sym(t)
+
+
+def counter_invariants(lp):
+    """{phi term: Lin in 'n'} for every loop-carried variable whose change
+    per iteration is the same constant on every path that goes on."""
+    inv = {}
+    goes_on = [q for q in lp.paths if q.outcome[0] in ('fall', 'continue')]
+    for name, ph in (lp.phis or {}).items():
+        pre = (lp.pre or {}).get(name)
+        if pre is None or not (is_const(pre) and isinstance(pre[1], int)):
+            continue
+        ks = set()
+        for q in goes_on:
+            end = q.env.get(name)
+            if end is None:
+                ks.add(None)
+                continue
+            d = lin_in_n(end, {}) - Lin.sym(ph)
+            ks.add(d.const if not d.coef else None)
+        if len(ks) == 1 and None not in ks:
+            k = ks.pop()
+            inv[ph] = Lin(const=pre[1]) + Lin.sym('n').scale(k)
+    # a `for x in range(a, b, s)`: the element is a + s * n
+    return inv
+
+
+def range_info(lp):
+    """(elem term, Lin in n, number of iterations) for a for-loop over a
+    constant range, else None"""
+    it = lp.ctx
+    if not (it[0] == 'op' and it[1] == 'range' and all(
+            is_const(x) and isinstance(x[1], int) for x in it[2])):
+        return None
+    args = [x[1] for x in it[2]]
+    r = range(*args)
+    el = None
+    for q in lp.paths:
+        for t in (x for a, _, _ in q.conds for x in subterms(a)):
+            if t[0] == 'elem' and struct(t[1]) == struct(it):
+                el = t
+        for v in q.env.values():
+            for t in subterms(v):
+                if t[0] == 'elem' and struct(t[1]) == struct(it):
+                    el = t
+    start = r.start
+    step = r.step
+    return el, Lin(const=start) + Lin.sym('n').scale(step), len(r)
+
+
+def bit_test(a, pol):
+    """(byte term, mask, set?) when the atom tests `byte & mask`"""
+    t = None
+    val = None
+    if a[1] == 'truth':
+        t, val = a[2][0], pol
+    elif a[1] == '==' and is_const(a[2][1]) and a[2][1][1] == 0:
+        t, val = a[2][0], not pol
+    elif a[1] == '==' and is_const(a[2][0]) and a[2][0][1] == 0:
+        t, val = a[2][1], not pol
+    elif a[1] == '<' and a[2][0] == ('const', 0):
+        t, val = a[2][1], pol
+    if t is not None and t[0] == 'op' and t[1] == '&' and len(t[2]) == 2:
+        l, r = t[2]
+        if is_const(r) and isinstance(r[1], int):
+            return l, r[1], val
+        if is_const(l) and isinstance(l[1], int):
+            return r, l[1], val
+    return None
+
+
+def check_read(report, db, S, vi, vl, rd, ref, consts):
     R1 = report.rule('R03.1', 'read loop: one 1-byte read per iteration, '
                      'worst case max nominal+1 reads, exits only by clear '
                      'continuation bit or raise')
     R2 = report.rule('R03.2', 'no stream read after the terminating byte')
     R3 = report.rule('R03.3', 'decoded number is assembled from non-negative '
                      'pieces only')
-    g = CFG(rd)
-    stream = rd.params[1] if rd.kind in ('class', 'instance') else rd.params[0]
-    loops = [n for n in ast.walk(rd.node) if isinstance(n, (ast.While,
-                                                            ast.For))]
-    if len(loops) != 1 or not isinstance(loops[0], ast.While):
-        raise AnalysisError('VarInt.read: expected exactly one while loop',
-                            rd.node, rel(rd.path))
-    loop = loops[0]
-    heads = [n for n in g.nodes if n.kind == 'test' and n.note is loop]
-    head = heads[0]
-    body = set(g.loop_nodes(loop))
-    cyc = cycles(g, head, body | {head})
-    if not cyc:
-        raise AnalysisError('VarInt.read: loop has no cycle', loop,
-                            rel(rd.path))
-    # counter: a local incremented by a positive constant inside the loop
-    incs = {}
-    for n in body:
-        a = n.ast
-        if isinstance(a, ast.AugAssign) and isinstance(a.op, ast.Add) and \
-                isinstance(a.target, ast.Name):
-            c = cval(F, basic, a.value)
-            if isinstance(c, int) and c > 0:
-                incs[n] = (a.target.id, c)
-    counters = set(v for v, _ in incs.values())
-    if len(counters) != 1:
-        report.violation(R1, 'read:counter', rd.path, loop, rd.qualname,
-                         'no unique loop counter incremented by a positive '
-                         'constant (found %s): the number of reads is not '
-                         'bounded by a byte count' % sorted(counters))
-        return
-    counter = counters.pop()
-    init = None
-    for st in rd.node.body:
-        if isinstance(st, ast.Assign) and len(st.targets) == 1 and \
-                isinstance(st.targets[0], ast.Name) and \
-                st.targets[0].id == counter:
-            init = cval(F, basic, st.value)
-    if not isinstance(init, int):
-        raise AnalysisError('VarInt.read: counter %s has no constant '
-                            'initialisation before the loop' % counter,
-                            rd.node, rel(rd.path))
-    consts['counter'] = counter
-    consts['counter_init'] = init
-    # guards: tests comparing the counter with cls.max_bytes, true arm raises
-    guards = {}
-    for n in body:
-        if n.kind != 'test':
-            continue
-        t = n.ast
-        if isinstance(t, ast.Compare) and len(t.ops) == 1 and \
-                isinstance(t.left, ast.Name) and t.left.id == counter and \
-                isinstance(t.ops[0], (ast.Gt, ast.GtE, ast.Eq)):
-            tr = [s for s, l in n.succ if l == 'true']
-            if tr and all(isinstance(s.ast, ast.Raise) for s in tr):
-                guards[n] = (type(t.ops[0]).__name__, t.comparators[0])
-    if not guards:
-        report.violation(R1, 'read:guard', rd.path, loop, rd.qualname,
-                         'no guard `%s > max -> raise` inside the loop: an '
-                         'endless run of continuation bytes is read forever'
-                         % counter)
-        return
-    # per class: simulate the worst-case cycle as a counter machine
-    for ci, nominal in ((vi, ref['varint']['max_bytes']['VarInt']),
-                        (vl, ref['varint']['max_bytes']['VarLong'])):
-        worst = 0
-        for path in cyc:
-            events = []
-            nreads = 0
-            for n, l in path:
-                k = len(reads_in(n.ast, stream)) if n.ast is not None else 0
-                for x in (reads_in(n.ast, stream) if n.ast is not None
-                          else []):
-                    sz = cval(F, basic, x.args[0]) if x.args else None
-                    if sz != 1:
-                        report.violation(
-                            R1, 'read:size', rd.path, x, rd.qualname,
-                            'loop reads %r byte(s) at a time, not 1: bytes '
-                            'of the next value are consumed' % (sz,))
-                    events.append(('read',))
-                    nreads += 1
-                if n in incs:
-                    events.append(('inc', incs[n][1]))
-                if n in guards:
-                    if l == 'true':
-                        events = None
-                        break
-                    op, rhs = guards[n]
-                    mv = guard_bound(F, db, basic, rhs, ci)
-                    if mv is None:
-                        raise AnalysisError(
-                            'VarInt.read: guard bound %s does not fold'
-                            % ast.unparse(rhs), rhs, rel(rd.path))
-                    events.append(('guard', op, mv))
-            if events is None:
+    stream = sy(rd.params[1] if rd.kind in ('class', 'instance')
+                else rd.params[0])
+    for ci in (vi, vl):
+        paths = S.run(rd, self_term=('cls', ci))
+        loops = loops_of(paths)
+        if len(loops) != 1:
+            raise AnalysisError('VarInt.read: expected exactly one loop, '
+                                'found %d' % len(loops), rd.node,
+                                rel(rd.path))
+        lp = loops[0]
+
+        def is_raw(e):
+            r = e.fn[1] if e.fn[0] == 'attr' else (
+                e.fn[2] if e.fn[0] == 'fn' and len(e.fn) > 2 else None)
+            return e.kind == 'call' and e.method() in ('read', 'recv') and \
+                r is not None and struct(r) == stream
+        inv = counter_invariants(lp)
+        ri = range_info(lp)
+        if ri is not None and ri[0] is not None:
+            inv[ri[0]] = ri[1]
+        prob1, prob2, prob3 = [], [], []
+        # -- R03.1: one 1-byte read per iteration -----------------------------
+        byte_terms = set()
+        for q in lp.paths:
+            reads = [e for e in q.flat(('call',)) if is_raw(e)]
+            if len(reads) != 1:
+                prob1.append(('read:count', 'an iteration performs %d '
+                              'stream reads [%s]' % (len(reads),
+                                                     q.cond_text()[:120])))
                 continue
-            if nreads != 1:
-                report.violation(
-                    R1, 'read:per-iteration:%s' % ci.name, rd.path, loop,
-                    rd.qualname, 'a path round the loop performs %d reads '
-                    '(exactly one expected)' % nreads)
-                return
-            if not any(e[0] == 'inc' for e in events) or \
-                    not any(e[0] == 'guard' for e in events):
-                report.violation(
-                    R1, 'read:unguarded-cycle:%s' % ci.name, rd.path, loop,
-                    rd.qualname, 'a path round the loop skips the counter '
-                    'increment or the max_bytes guard: unbounded reads')
-                return
-            w = simulate(events, init)
-            if w is None:
-                report.violation(
-                    R1, 'read:unbounded:%s' % ci.name, rd.path, loop,
-                    rd.qualname, 'counter machine of the loop never trips '
-                    'its guard: unbounded reads')
-                return
-            worst = max(worst, w)
-        if worst <= nominal + 1 and worst >= nominal:
-            report.ok(R1, '%s.read: at most %d one-byte reads (nominal %d)'
-                      % (ci.name, worst, nominal))
-        elif worst > nominal + 1:
-            report.violation(
-                R1, 'read:bound:%s' % ci.name, rd.path, loop, rd.qualname,
-                '%s.read can perform %d reads before giving up; the bound '
-                'is nominal %d + 1' % (ci.name, worst, nominal))
+            r = reads[0]
+            if [struct(a) for a in r.args if struct(a) != stream] != [
+                    ('const', 1)]:
+                prob1.append(('read:size', 'an iteration reads %s bytes '
+                              'at once; a byte of the next field would be '
+                              'consumed' % [show(a) for a in r.args]))
+            if q.flat(('call', 'store'))[0] is not r:
+                prob1.append(('read:first', 'something happens before the '
+                              'read'))
+        # exits and the bound on the iteration number
+        exits_ok = True
+        bound = None
+        cont_mask = None
+        for q in lp.paths:
+            oc = q.outcome[0]
+            bt = None
+            for a, pol, _ in q.conds:
+                b = bit_test(a, pol)
+                if b is not None and any(x[0] == 'call' for x in
+                                         subterms(b[0])):
+                    bt = b
+                    byte_terms.add(struct(b[0]))
+            if oc in ('return', 'break') and not (len(q.outcome) == 2
+                                                 and oc == 'break'):
+                if bt is None or bt[2] is not False:
+                    exits_ok = False
+                    prob1.append(('read:exit', 'the loop is left normally '
+                                  'when [%s]; it may only be left when the '
+                                  'continuation bit of the byte just read '
+                                  'is clear' % q.cond_text()[:160]))
+                else:
+                    cont_mask = bt[1]
+                after = [e for e in q.flat(('call',)) if is_raw(e)]
+                # R03.2: nothing is read after the decision
+                dec = [i for i, (a, pol, _) in enumerate(q.conds)
+                       if bit_test(a, pol) is not None]
+                if dec and any(e.nconds > dec[-1] + len(q.conds) * 0
+                               and e.nconds - (q.events[0].nconds
+                                               if q.events else 0) > dec[-1]
+                               for e in after[1:]):
+                    prob2.append('a stream read follows the terminating '
+                                 'byte')
+            elif oc in ('fall', 'continue'):
+                if bt is None or bt[2] is not True:
+                    prob1.append(('read:continue', 'an iteration goes on '
+                                  'although the continuation bit is not '
+                                  'known to be set [%s]'
+                                  % q.cond_text()[:160]))
+                # the guard: a decision comparing a counter with a constant
+                for a, pol, _ in q.conds:
+                    if a[1] not in ('<', '<='):
+                        continue
+                    l, r = lin_in_n(a[2][0], inv), lin_in_n(a[2][1], inv)
+                    d = r - l       # pol: d > 0 ('<') or d >= 0 ('<=')
+                    if set(d.coef) != {'n'}:
+                        continue
+                    k, c = d.coef['n'], d.const
+                    strict = a[1] == '<'
+                    # holds: k*n + c > 0 (strict) / >= 0
+                    if not pol:
+                        # negation: k*n + c <= 0 (strict) / < 0
+                        k, c, strict = -k, -c, not strict
+                    # now: k*n + c > 0 if strict else >= 0
+                    if k >= 0:
+                        continue        # no upper bound on n
+                    # n < c / -k  (strict)  or  n <= c / -k
+                    m = -k
+                    u = (c - 1) // m if strict else c // m
+                    bound = u if bound is None else min(bound, u)
+        if ri is not None:
+            reads_max = ri[2]
+        elif bound is not None:
+            reads_max = bound + 2
         else:
-            report.violation(
-                R1, 'read:bound-low:%s' % ci.name, rd.path, loop, rd.qualname,
-                '%s.read gives up after %d reads: a valid %d-byte encoding '
-                'is rejected' % (ci.name, worst, nominal))
-    # loop exits
-    exits = []
-    for n in body | {head}:
-        for s, l in n.succ:
-            if s not in body and s is not head:
-                exits.append((n, s, l))
-    for n, s, l in exits:
-        if l == 'exc' or isinstance(n.ast, ast.Raise):
-            continue
-        if isinstance(n.ast, ast.Break):
-            # the break must be guarded by a clear continuation bit of the
-            # byte just read
-            tests = [p for p, pl in n.pred if p.kind == 'test']
-            ok = False
-            for p in tests:
-                m = cont_bit_test(p.ast)
-                lab = [pl for q, pl in n.pred if q is p][0]
-                if m is not None and ((m[1] and lab == 'true') or
-                                      (not m[1] and lab == 'false')):
-                    consts['read_cont'] = m[0]
-                    ok = True
-            if ok:
-                report.ok(R1, 'exit by break under clear continuation bit')
-            else:
-                report.violation(R1, 'read:break-condition', rd.path, n.ast,
-                                 rd.qualname, 'loop is left by a break that '
-                                 'is not guarded by `not byte & 0x80`')
+            reads_max = None
+        nominal = ref['varint']['max_bytes'][ci.name]
+        if reads_max is None:
+            prob1.append(('read:counter', 'no loop counter that grows by a '
+                          'positive constant is compared with a bound: the '
+                          'number of reads is not bounded by a byte count'))
+        elif reads_max != nominal + 1:
+            prob1.append(('read:worst-case', '%s.read performs up to %d '
+                          'reads before it gives up; the protocol allows %d '
+                          'bytes (the decoder tolerates one more)'
+                          % (ci.name, reads_max, nominal)))
+        # after the loop nothing is read
+        for p in paths:
+            seen_loop = False
+            for e in p.events:
+                if e.kind == 'loop':
+                    seen_loop = True
+                elif seen_loop and not e.loops and e.kind == 'call' and \
+                        is_raw(e):
+                    prob2.append('a stream read follows the loop')
+        # -- R03.3: the number ------------------------------------------------
+        acc = None
+        shift_unit = mask = None
+        for q in lp.paths:
+            if q.outcome[0] == 'raise':
+                continue
+            for name, ph in (lp.phis or {}).items():
+                end = q.env.get(name)
+                if end is None or end == ph or ph in inv:
+                    continue
+                if not (end[0] == 'op' and end[1] in ('|', '+')
+                        and len(end[2]) == 2 and ph in end[2]):
+                    continue
+                piece = end[2][1] if end[2][0] == ph else end[2][0]
+                acc = name
+                if not (piece[0] == 'op' and piece[1] == '<<'):
+                    prob3.append('group i contributes %s' % show(piece))
+                    continue
+                val, sh = piece[2]
+                if val[0] == 'op' and val[1] == '&' and len(val[2]) == 2 \
+                        and any(is_const(x) and isinstance(x[1], int)
+                                and x[1] >= 0 for x in val[2]):
+                    mask = [x[1] for x in val[2] if is_const(x)][0]
+                    b = [x for x in val[2] if not is_const(x)][0]
+                    byte_terms.add(struct(b))
+                else:
+                    prob3.append('the payload bits are %s: not masked with '
+                                 'a non-negative constant' % show(val))
+                f = lin_in_n(sh, inv)
+                if set(f.coef) <= {'n'} and f.const == 0 and \
+                        f.coef.get('n', 0) > 0:
+                    shift_unit = f.coef['n']
+                else:
+                    prob3.append('group i is shifted by %s (= %s): not a '
+                                 'non-negative multiple of the group '
+                                 'index' % (show(sh), f))
+                pre = (lp.pre or {}).get(name)
+                if pre != ('const', 0):
+                    prob3.append('the number starts at %s' % (
+                        show(pre) if pre else None))
+        if acc is None:
+            prob3.append('no accumulation `number |= piece` found')
+        if len(byte_terms) > 1:
+            prob3.append('the continuation test and the payload use '
+                         'different bytes: %s' % sorted(
+                             show(b) for b in byte_terms))
+        # returned value is the accumulator
+        for p in paths:
+            if p.returns:
+                v = p.value
+                if not any(t[0] == 'phi' and t[1] == acc
+                           for t in subterms(v)) and v != ('const', None):
+                    prob3.append('read returns %s' % show(v)[:80])
+        if ci is vi:
+            consts['read_mask'] = mask
+            consts['read_shift'] = shift_unit
+            consts['read_cont'] = cont_mask
+            cnt0 = [f.const for ph, f in inv.items()
+                    if f.coef.get('n', 0) > 0]
+            consts['counter_init'] = 0 if (ri is not None and ri[1].const
+                                           == 0) or 0 in cnt0 or not cnt0 \
+                else cnt0[0]
+        seen = set()
+        for key, msg in prob1:
+            if key in seen:
+                continue
+            seen.add(key)
+            report.violation(R1, key, rd.path, lp.node, rd.qualname,
+                             '%s: %s' % (ci.name, msg))
+        if not prob1:
+            report.ok(R1, '%s: one read(1) per iteration, at most %d reads, '
+                      'left only on a clear continuation bit or by raising'
+                      % (ci.name, reads_max))
+        if prob2:
+            report.violation(R2, 'read:after-terminator', rd.path, lp.node,
+                             rd.qualname, sorted(set(prob2))[0])
         else:
-            report.violation(R1, 'read:exit', rd.path, n.ast or loop,
-                             rd.qualname, 'unexpected normal exit from the '
-                             'read loop at %r' % (n,))
-    # EOF test inside the loop
-    eof_ok = False
-    for n in body:
-        if n.kind == 'test':
-            tr = [s for s, l in n.succ if l == 'true']
-            if tr and all(isinstance(s.ast, ast.Raise) for s in tr) and \
-                    n not in guards:
-                eof_ok = True
-    if eof_ok:
-        report.ok(R1, 'empty read raises inside the loop')
-    else:
-        report.violation(R1, 'read:eof', rd.path, loop, rd.qualname,
-                         'no test of the read result that raises on end of '
-                         'stream')
-    # R03.2 no read after the loop
-    after = [n for n in g.reachable_nodes() if n not in body and n is not head
-             and n.ast is not None and reads_in(n.ast, stream)
-             and loop not in n.loops]
-    pre = [n for n in after if g.dominates(n, head)]
-    post = [n for n in after if n not in pre]
-    if post or pre:
-        for n in post + pre:
-            report.violation(R2, 'read:overread', rd.path, n.ast, rd.qualname,
-                             'a stream read outside the decoding loop '
-                             'consumes a byte that does not belong to this '
-                             'value')
-    else:
-        report.ok(R2, 'no read outside the loop')
-    # R03.3 sign of the accumulated number
-    ret = [n for n in ast.walk(rd.node) if isinstance(n, ast.Return)]
-    if len(ret) != 1 or not isinstance(ret[0].value, ast.Name):
-        raise AnalysisError('VarInt.read: expected `return <name>`',
-                            rd.node, rel(rd.path))
-    acc = ret[0].value.id
-    nonneg = {counter}
-    okk = True
-    shifts = []
-    for n in ast.walk(rd.node):
-        tgt = None
-        if isinstance(n, ast.Assign) and len(n.targets) == 1 and \
-                isinstance(n.targets[0], ast.Name) and \
-                n.targets[0].id == acc:
-            tgt, val, op = acc, n.value, None
-        elif isinstance(n, ast.AugAssign) and isinstance(n.target, ast.Name) \
-                and n.target.id == acc:
-            tgt, val, op = acc, n.value, n.op
-        if tgt is None:
-            continue
-        if op is not None and not isinstance(op, (ast.BitOr, ast.Add)):
-            okk = False
-            report.violation(R3, 'read:acc-op', rd.path, n, rd.qualname,
-                             'accumulator updated with %s'
-                             % type(op).__name__)
-            continue
-        if not is_nonneg(val, nonneg, F, basic):
-            okk = False
-            report.violation(R3, 'read:acc-sign', rd.path, n, rd.qualname,
-                             'piece %s added to the result is not provably '
-                             'non-negative' % ast.unparse(val))
-        for x in ast.walk(val):
-            if isinstance(x, ast.BinOp) and isinstance(x.op, ast.LShift):
-                shifts.append(x)
-                m = mask_of(x.left, F, basic)
-                if m is not None:
-                    consts['read_mask'] = m
-                consts['read_shift'] = shift_unit(x.right, counter, F, basic)
-    if okk:
-        report.ok(R3, '%s starts at a constant >= 0 and is only |=-ed with '
-                  'masked, left-shifted pieces' % acc)
+            report.ok(R2, '%s: nothing is read after the terminating byte'
+                      % ci.name)
+        if prob3:
+            report.violation(R3, 'read:pieces', rd.path, lp.node,
+                             rd.qualname, '; '.join(sorted(set(prob3))))
+        else:
+            report.ok(R3, '%s: number = OR of (byte & 0x%02X) << (%d * i), '
+                      'from 0' % (ci.name, mask, shift_unit))
 
 
-def guard_bound(F, db, basic, rhs, ci):
-    """Value of the guard's right-hand side for class ci (cls.max_bytes)."""
-    if isinstance(rhs, ast.Attribute) and isinstance(rhs.value, ast.Name) \
-            and rhs.value.id in ('cls', 'self'):
-        try:
-            return F.getattr(ClassVal(ci), rhs.attr, rhs, basic)
-        except FoldRaise:
-            return None
-    return cval(F, basic, rhs)
-
-
-def simulate(events, init):
-    """Reads performed before the guard trips when every byte has its
-    continuation bit set."""
-    c = init
-    reads = 0
-    for _ in range(100000):
-        for e in events:
-            if e[0] == 'read':
-                reads += 1
-            elif e[0] == 'inc':
-                c += e[1]
-            elif e[0] == 'guard':
-                op, m = e[1], e[2]
-                if (op == 'Gt' and c > m) or (op == 'GtE' and c >= m) or \
-                        (op == 'Eq' and c == m):
-                    return reads
-        if reads > 10000:
-            return None
-    return None
-
-
-def cont_bit_test(t):
-    """(mask, exit_when_true) for `not byte & M` / `byte & M == 0` /
-    `byte & M` (exit when false)."""
-    if isinstance(t, ast.UnaryOp) and isinstance(t.op, ast.Not):
-        m = plain_mask(t.operand)
-        if m is not None:
-            return m, True
-    if isinstance(t, ast.Compare) and len(t.ops) == 1 and \
-            isinstance(t.comparators[0], ast.Constant) and \
-            t.comparators[0].value == 0:
-        m = plain_mask(t.left)
-        if m is not None:
-            if isinstance(t.ops[0], ast.Eq):
-                return m, True
-            if isinstance(t.ops[0], ast.NotEq):
-                return m, False
-    m = plain_mask(t)
-    if m is not None:
-        return m, False
-    return None
-
-
-def plain_mask(e):
-    if isinstance(e, ast.BinOp) and isinstance(e.op, ast.BitAnd):
-        for a, b in ((e.left, e.right), (e.right, e.left)):
-            if isinstance(b, ast.Constant) and isinstance(b.value, int) and \
-                    isinstance(a, ast.Name):
-                return b.value
-    return None
-
-
-def mask_of(e, F, basic):
-    if isinstance(e, ast.BinOp) and isinstance(e.op, ast.BitAnd):
-        for a, b in ((e.left, e.right), (e.right, e.left)):
-            c = cval(F, basic, b)
-            if isinstance(c, int):
-                return c
-    return None
-
-
-def shift_unit(e, counter, F, basic):
-    """k for a shift amount `k * counter` / `counter * k`."""
-    if isinstance(e, ast.BinOp) and isinstance(e.op, ast.Mult):
-        for a, b in ((e.left, e.right), (e.right, e.left)):
-            if isinstance(a, ast.Name) and a.id == counter:
-                c = cval(F, basic, b)
-                if isinstance(c, int):
-                    return c
-    return None
-
-
-def is_nonneg(e, nonneg_names, F, basic):
-    c = cval(F, basic, e) if not isinstance(e, ast.Name) else None
-    if isinstance(c, (int, float)) and not isinstance(c, bool):
-        return c >= 0
-    if isinstance(e, ast.Name):
-        return e.id in nonneg_names
-    if isinstance(e, ast.BinOp):
-        if isinstance(e.op, ast.BitAnd):
-            for b in (e.left, e.right):
-                cc = cval(F, basic, b)
-                if isinstance(cc, int) and cc >= 0:
-                    return True
-            return is_nonneg(e.left, nonneg_names, F, basic) and \
-                is_nonneg(e.right, nonneg_names, F, basic)
-        if isinstance(e.op, (ast.LShift, ast.RShift, ast.Mult, ast.Add,
-                             ast.BitOr)):
-            return is_nonneg(e.left, nonneg_names, F, basic) and \
-                is_nonneg(e.right, nonneg_names, F, basic)
-    if isinstance(e, ast.Call) and isinstance(e.func, ast.Name) and \
-            e.func.id in ('ord', 'len'):
+def nonneg_at_entry(p, lp, name, start):
+    """The value that enters the loop as `name` is known to be >= 0."""
+    v = (lp.pre or {}).get(name)
+    if v is None:
+        return False
+    if v[0] == 'op' and v[1] == '&' and any(
+            is_const(x) and isinstance(x[1], int) and x[1] >= 0
+            for x in v[2]):
         return True
+    for a, pol, _ in p.conds[:lp.nconds]:
+        if a[1] == '<' and struct(a[2][0]) == struct(v) and \
+                a[2][1] == ('const', 0) and not pol:
+            return True
+        if a[1] == '<=' and a[2][0] == ('const', 0) and \
+                struct(a[2][1]) == struct(v) and pol:
+            return True
     return False
 
 
-# ---------------------------------------------------------------------------
-def check_send(report, db, F, basic, sd, consts):
+def check_send(report, db, S, sd, consts):
     R4 = report.rule('R03.4', 'encode loop terminates: exit on value == 0, '
                      'only update value >>= k, and value >= 0 is established '
                      'before the loop')
-    g = CFG(sd)
-    vparam = sd.params[0] if sd.kind == 'static' else sd.params[1]
-    loops = [n for n in ast.walk(sd.node) if isinstance(n, (ast.While,
-                                                            ast.For))]
-    if len(loops) != 1 or not isinstance(loops[0], ast.While):
-        raise AnalysisError('VarInt.send: expected exactly one while loop',
-                            sd.node, rel(sd.path))
-    loop = loops[0]
-    head = [n for n in g.nodes if n.kind == 'test' and n.note is loop][0]
-    body = set(g.loop_nodes(loop))
-    # updates of the value inside the loop
-    ups = []
-    for n in body:
-        a = n.ast
-        if isinstance(a, ast.AugAssign) and isinstance(a.target, ast.Name) \
-                and a.target.id == vparam:
-            ups.append(a)
-        elif isinstance(a, ast.Assign) and any(
-                isinstance(t, ast.Name) and t.id == vparam
-                for t in a.targets):
-            ups.append(a)
-    shift = None
-    good_update = len(ups) == 1 and isinstance(ups[0], ast.AugAssign) and \
-        isinstance(ups[0].op, ast.RShift)
-    if good_update:
-        shift = cval(F, basic, ups[0].value)
-        good_update = isinstance(shift, int) and shift > 0
-    if not good_update:
-        report.violation(R4, 'send:update', sd.path, loop, sd.qualname,
-                         'the loop does not shrink the value by exactly one '
-                         '`value >>= k` (k > 0) per iteration: %s'
-                         % [ast.unparse(u) for u in ups])
+    paths = S.run(sd)
+    vparam = sy(sd.params[0])
+    loops = loops_of(paths)
+    if len(loops) != 1:
+        raise AnalysisError('VarInt.send: expected exactly one loop, found '
+                            '%d' % len(loops), sd.node, rel(sd.path))
+    lp = loops[0]
+    prob = []
+    # the loop-carried value: the variable updated by >>=
+    vname = None
+    k = None
+    for name, ph in (lp.phis or {}).items():
+        ends = set()
+        for q in lp.paths:
+            if q.outcome[0] == 'raise':
+                continue
+            e = q.env.get(name)
+            ends.add(struct(e) if e is not None else None)
+        if len(ends) == 1:
+            e = list(ends)[0]
+            if e is not None and e[0] == 'op' and e[1] == '>>' and \
+                    e[2][0] == struct(ph) and is_const(e[2][1]):
+                vname, k = name, e[2][1][1]
+    if vname is None:
+        report.violation(R4, 'send:update', sd.path, lp.node, sd.qualname,
+                         'no variable is updated by `value >>= k` on every '
+                         'iteration: the loop has no ranking function')
         return
-    consts['send_shift'] = shift
-    # every cycle must pass the update
-    for path in cycles(g, head, body | {head}):
-        if not any(n.ast is ups[0] for n, _ in path):
-            report.violation(R4, 'send:cycle', sd.path, loop, sd.qualname,
-                             'a path round the encode loop does not shift '
-                             'the value: it never reaches zero')
-            return
-    # exit condition
-    exit_ok = False
-    for n in body | {head}:
-        if n.kind != 'test':
+    consts['send_shift'] = k
+    ph = lp.phis[vname]
+    nxt = ('op', '>>', (ph, ('const', k)))
+    # exits exactly when the shifted value is 0
+    for q in lp.paths:
+        zero = None
+        for a, pol, _ in q.conds:
+            if a[1] == '==' and set(struct(x) for x in a[2]) == {
+                    struct(nxt), ('const', 0)}:
+                zero = pol
+            elif a[1] == 'truth' and struct(a[2][0]) == struct(nxt):
+                zero = not pol
+            elif a[1] == '<' and a[2] == (('const', 0), nxt) and \
+                    zero is None:
+                pass
+        oc = q.outcome[0]
+        if oc in ('break', 'return') and not (len(q.outcome) == 2):
+            if zero is not True:
+                prob.append(('send:exit', 'the loop is left when [%s], not '
+                             'exactly when the remaining value is 0'
+                             % q.cond_text()[:120]))
+        elif oc in ('fall', 'continue'):
+            if zero is not False:
+                prob.append(('send:exit', 'the loop goes on when [%s], not '
+                             'exactly when the remaining value is non-zero'
+                             % q.cond_text()[:120]))
+    # value >= 0 at loop entry on every path that reaches the loop
+    pre = (lp.pre or {}).get(vname)
+    for p in paths:
+        if not any(e is lp or (e.kind == 'loop' and e.node is lp.node)
+                   for e in p.events):
             continue
-        t = n.ast
-        zero_true = None
-        if isinstance(t, ast.Compare) and len(t.ops) == 1 and \
-                isinstance(t.left, ast.Name) and t.left.id == vparam and \
-                isinstance(t.comparators[0], ast.Constant) and \
-                t.comparators[0].value == 0:
-            if isinstance(t.ops[0], ast.Eq):
-                zero_true = True
-            elif isinstance(t.ops[0], (ast.NotEq, ast.Gt)):
-                zero_true = False
-        elif isinstance(t, ast.UnaryOp) and isinstance(t.op, ast.Not) and \
-                isinstance(t.operand, ast.Name) and t.operand.id == vparam:
-            zero_true = True
-        elif isinstance(t, ast.Name) and t.id == vparam:
-            zero_true = False
-        if zero_true is None:
+        lpe = [e for e in p.events if e.kind == 'loop'][0]
+        if not nonneg_at_entry(p, lpe, vname, vparam):
+            prob.append(('send:negative', 'the loop is entered without the '
+                         'value being known to be >= 0 [%s]: for a negative '
+                         'value `>>= %d` never reaches 0 and the loop does '
+                         'not terminate' % (p.cond_text()[:100], k)))
+    if not any(p.raises or True for p in paths):
+        pass
+    seen = set()
+    for key, msg in prob:
+        if key in seen:
             continue
-        lab = 'true' if zero_true else 'false'
-        outs = [s for s, l in n.succ if l == lab]
-        if outs and all(isinstance(s.ast, ast.Break) or
-                        (s not in body and s is not head) for s in outs):
-            exit_ok = True
-    if not exit_ok:
-        report.violation(R4, 'send:exit', sd.path, loop, sd.qualname,
-                         'the loop is not left when the value reaches 0')
-        return
-    # value >= 0 at loop entry
-    est = nonneg_established(g, sd, head, vparam, F, basic)
-    if est:
-        report.ok(R4, 'value >= 0 at loop entry (%s); ranking function '
-                  'value, strictly decreasing under >>= %d until 0'
-                  % (est, shift))
-    else:
-        report.violation(
-            R4, 'send:negative', sd.path, loop, sd.qualname,
-            'nothing establishes value >= 0 before the encode loop: for a '
-            'negative value `value >>= %d` converges to -1, never to 0, and '
-            'the loop does not terminate' % shift)
-
-
-def nonneg_established(g, fi, head, v, F, basic):
-    """A dominating guard `if v < 0: raise` or a dominating mask
-    `v &= const >= 0` / `v = v & const` / `v = v % const`."""
-    for n in g.nodes:
-        if not g.dominates(n, head) or n is head:
+        seen.add(key)
+        report.violation(R4, key, sd.path, lp.node, sd.qualname, msg)
+    if not prob:
+        report.ok(R4, 'value >>= %d every iteration, left exactly when the '
+                  'rest is 0, value >= 0 on entry' % k)
+    # what each iteration emits
+    smask = scont = None
+    flag_ok = True
+    for q in lp.paths:
+        if q.outcome[0] == 'raise':
             continue
-        a = n.ast
-        if n.kind == 'test' and isinstance(a, ast.Compare) and \
-                len(a.ops) == 1 and isinstance(a.left, ast.Name) and \
-                a.left.id == v and isinstance(a.ops[0], ast.Lt) and \
-                cval(F, basic, a.comparators[0]) == 0:
-            tr = [s for s, l in n.succ if l == 'true']
-            if tr and all(isinstance(s.ast, ast.Raise) for s in tr):
-                return 'negative values are rejected at line %d' % n.lineno
-        if isinstance(a, ast.AugAssign) and isinstance(a.target, ast.Name) \
-                and a.target.id == v and isinstance(a.op, (ast.BitAnd,
-                                                           ast.Mod)):
-            c = cval(F, basic, a.value)
-            if isinstance(c, int) and c >= 0:
-                return 'masked to a non-negative range at line %d' % n.lineno
-        if isinstance(a, ast.Assign) and len(a.targets) == 1 and \
-                isinstance(a.targets[0], ast.Name) and \
-                a.targets[0].id == v and isinstance(a.value, ast.BinOp) and \
-                isinstance(a.value.op, (ast.BitAnd, ast.Mod)):
-            c = cval(F, basic, a.value.right)
-            if isinstance(c, int) and c > 0:
-                return 'masked to a non-negative range at line %d' % n.lineno
-    return None
+        packs = [e for e in q.flat(('call',))
+                 if e.fn == ('ext', 'struct.pack')
+                 and e.args[:1] == (('const', 'B'),) and len(e.args) == 2]
+        apps = [e for e in q.flat(('call',)) if e.fn[0] == 'attr'
+                and e.fn[2] == 'append' and len(e.args) == 1
+                and not any(x.fn == ('ext', 'struct.pack')
+                            for x in q.flat(('call',)))]
+        if len(packs) + len(apps) != 1:
+            flag_ok = False
+            continue
+        v = packs[0].args[1] if packs else apps[0].args[0]
+        low = flag = None
+        if v[0] == 'op' and v[1] in ('|', '+') and len(v[2]) == 2:
+            for x in v[2]:
+                if is_const(x):
+                    flag = x[1]
+                elif x[0] == 'op' and x[1] == '&':
+                    low = x
+        elif v[0] == 'op' and v[1] == '&':
+            low, flag = v, 0
+        if low is None or flag is None:
+            flag_ok = False
+            continue
+        m = [x[1] for x in low[2] if is_const(x)]
+        if m and ph in low[2]:
+            smask = m[0]
+        else:
+            flag_ok = False
+        more = None
+        for a, pol, _ in q.conds:
+            if a[1] == '<' and a[2] == (('const', 0), nxt):
+                more = pol
+            elif a[1] == '==' and set(a[2]) == {nxt, ('const', 0)}:
+                more = (not pol) if more is None else more
+            elif a[1] == 'truth' and a[2][0] == nxt:
+                more = pol if more is None else more
+            elif a[1] == '<=' and a[2] == (('const', 0), nxt):
+                more = 'ge'
+        if flag:
+            scont = flag
+        if more == 'ge' or bool(flag) != bool(more):
+            flag_ok = False
+    consts['send_mask'] = smask
+    consts['send_cont'] = scont
+    consts['send_flag_ok'] = flag_ok
+    # one send of everything accumulated
+    for p in paths:
+        if not p.returns:
+            continue
+        sends = [e for e in p.events if e.kind == 'call'
+                 and e.method() in ('send', 'sendall')]
+        if len(sends) != 1:
+            report.violation(R4, 'send:sends', sd.path, sd.node, sd.qualname,
+                             'send performs %d socket sends; one VarInt is '
+                             'one send of all its groups' % len(sends))
 
 
-# ---------------------------------------------------------------------------
-def check_constants(report, db, F, basic, rd, sd, sz, ref, consts):
+def check_constants(report, db, F, S, basic, rd, sd, sz, ref, consts):
     R5 = report.rule('R03.5', 'send, read and the size table agree on 7 '
                      'payload bits per byte, little-endian groups')
     bits = ref['varint']['payload_bits']
     mask = (1 << bits) - 1
     cont = 1 << bits
-    # send-side mask and continuation flag
-    smask = None
-    scont = None
-    flag_cond = None
-    for n in ast.walk(sd.node):
-        if isinstance(n, ast.Assign) and isinstance(n.value, ast.BinOp) and \
-                isinstance(n.value.op, ast.BitAnd):
-            m = mask_of(n.value, F, basic)
-            if m is not None:
-                smask = m
-        if isinstance(n, ast.IfExp):
-            b = cval(F, basic, n.body)
-            o = cval(F, basic, n.orelse)
-            if isinstance(b, int) and isinstance(o, int):
-                scont = b if b else o
-                flag_cond = (n.test, bool(b))
     probs = []
     if consts.get('read_mask') != mask:
         probs.append((rd, 'read masks the payload with %r, not 0x%02X'
@@ -587,34 +573,19 @@ def check_constants(report, db, F, basic, rd, sd, sz, ref, consts):
     if consts.get('counter_init') != 0:
         probs.append((rd, 'group counter starts at %r, not 0'
                       % consts.get('counter_init')))
-    if smask != mask:
+    if consts.get('send_mask') != mask:
         probs.append((sd, 'send masks each group with %r, not 0x%02X'
-                      % (smask, mask)))
+                      % (consts.get('send_mask'), mask)))
     if consts.get('send_shift') is not None and \
             consts.get('send_shift') != bits:
         probs.append((sd, 'send shifts by %r bits per byte, not %d'
                       % (consts.get('send_shift'), bits)))
-    if scont != cont:
+    if consts.get('send_cont') != cont:
         probs.append((sd, 'send sets continuation flag %r, not 0x%02X'
-                      % (scont, cont)))
-    if flag_cond is not None:
-        t, when_true = flag_cond
-        okf = False
-        if isinstance(t, ast.Compare) and len(t.ops) == 1 and \
-                isinstance(t.left, ast.Name) and \
-                isinstance(t.comparators[0], ast.Constant) and \
-                t.comparators[0].value == 0:
-            if when_true and isinstance(t.ops[0], (ast.Gt, ast.NotEq)):
-                okf = True
-            if not when_true and isinstance(t.ops[0], ast.Eq):
-                okf = True
-        elif isinstance(t, ast.Name) and when_true:
-            okf = True
-        if not okf:
-            probs.append((sd, 'continuation flag is not set exactly when '
-                          'more groups remain: %s' % ast.unparse(t)))
-    else:
-        probs.append((sd, 'no continuation flag expression found'))
+                      % (consts.get('send_cont'), cont)))
+    if not consts.get('send_flag_ok'):
+        probs.append((sd, 'continuation flag is not set exactly when more '
+                      'groups remain'))
     for fi, msg in probs:
         report.violation(R5, 'const:%s:%s' % (fi.name, msg.split(' ')[1]),
                          fi.path, fi.node, fi.qualname, msg)
@@ -644,33 +615,56 @@ def check_constants(report, db, F, basic, rd, sd, sz, ref, consts):
         report.violation(R5, 'sizetable:short', basic.path, None,
                          'VARINT_SIZE_TABLE', 'size table has only %d rows; '
                          'VarLong needs 10' % len(keys))
-    # size(): first key exceeding the value
+    # size(): first key strictly above the value, in table order
+    vparam = sy(sz.params[0])
     okk = False
-    vparam = sz.params[0]
-    for n in ast.walk(sz.node):
-        if isinstance(n, ast.For) and isinstance(n.target, ast.Tuple) and \
-                len(n.target.elts) == 2 and \
-                ast.unparse(n.iter) == 'VARINT_SIZE_TABLE.items()':
-            kname, vname = [e.id for e in n.target.elts]
-            for st in n.body:
-                if isinstance(st, ast.If) and isinstance(st.test, ast.Compare) \
-                        and len(st.test.ops) == 1:
-                    t = st.test
-                    lt = (isinstance(t.ops[0], ast.Lt) and
-                          isinstance(t.left, ast.Name) and
-                          t.left.id == vparam and
-                          isinstance(t.comparators[0], ast.Name) and
-                          t.comparators[0].id == kname)
-                    gt = (isinstance(t.ops[0], ast.Gt) and
-                          isinstance(t.left, ast.Name) and
-                          t.left.id == kname and
-                          isinstance(t.comparators[0], ast.Name) and
-                          t.comparators[0].id == vparam)
-                    if (lt or gt) and st.body and \
-                            isinstance(st.body[0], ast.Return) and \
-                            isinstance(st.body[0].value, ast.Name) and \
-                            st.body[0].value.id == vname:
-                        okk = True
+    for p in S.run(sz):
+        for lp in [e for e in p.events if e.kind == 'loop']:
+            it = lp.ctx
+            if not (it[0] == 'call' and it[1][0] == 'attr'
+                    and it[1][2] == 'items'
+                    and it[1][1][0] in ('glob', 'dict')):
+                continue
+            for q in lp.paths:
+                if q.outcome[0] != 'return':
+                    continue
+                v = q.outcome[1]
+                tests = [(a, pol) for a, pol, _ in q.conds]
+                if len(tests) == 1 and tests[0][1] and \
+                        tests[0][0][1] == '<' and \
+                        struct(tests[0][0][2][0]) == vparam and \
+                        tests[0][0][2][1][0] == 'op' and \
+                        tests[0][0][2][1][1] == 'index' and \
+                        tests[0][0][2][1][2][1] == ('const', 0) and \
+                        v[0] == 'op' and v[1] == 'index' and \
+                        v[2][1] == ('const', 1) and \
+                        v[2][0] == tests[0][0][2][1][2][0]:
+                    okk = True
+        # next(<generator over the items, filtered by value < bound>)
+        if p.returns:
+            for t in subterms(p.value) if p.value else ():
+                pass
+        for a, pol, _ in p.conds:
+            for t in subterms(a):
+                if t[0] == 'call' and t[1] == ('builtin', 'next') and \
+                        t[2] and t[2][0][0] == 'op' and \
+                        t[2][0][1] == 'genexp':
+                    g = t[2][0]
+                    its, elts, filt = g[2][0], g[2][1], g[2][2] if len(
+                        g[2]) > 2 else ('tuple', ())
+                    if len(its[1]) == 1 and its[1][0][0] == 'call' and \
+                            its[1][0][1][0] == 'attr' and \
+                            its[1][0][1][2] == 'items' and \
+                            len(filt[1]) == 1:
+                        fa, fp = filt[1][0][1]
+                        if fp == ('const', True) and fa[1] == '<' and \
+                                struct(fa[2][0]) == vparam and \
+                                fa[2][1][0] == 'op' and \
+                                fa[2][1][2][1] == ('const', 0) and \
+                                len(elts[1]) == 1 and \
+                                elts[1][0][1][0][0] == 'op' and \
+                                elts[1][0][1][0][2][1] == ('const', 1):
+                            okk = True
     if okk:
         report.ok(R5, 'size(): first table key strictly above the value')
     else:
